@@ -93,6 +93,7 @@ fn absorb_walk(out: &mut Outcome, w: &WalkStats) {
     s.probe("visual_feature_unusable_quality", w.rv_unusable_quality);
     s.probe("visual_feature_unusable_area", w.rv_unusable_area);
     s.probe("visual_votes_below_min", w.rv_votes_below_min);
+    s.probe("visual_feature_unusable_own_area", w.rv_unusable_own_area);
 }
 
 /// pick the violation owned by `prop`; count the others
@@ -360,15 +361,15 @@ fn world_opts(prop: &str, thorough: bool, r: &mut Rng) -> WorldOpts {
     let sort_family = vec![Kind::Sort, Kind::BatchSort];
     let frames = if thorough { *r.pick(&[6usize, 12, 25, 60]) } else { *r.pick(&[4usize, 8, 14]) };
     match prop {
-        "C01" => WorldOpts { kinds: all.clone(), max_frames: frames, max_scenes: 3, max_objects: 5, twins: true, lifecycle: true, batches: true, rotation: true, constraints: 1, features: true, stress: true, long_life: 0, lookalikes: true, wide: false },
-        "C03" => WorldOpts { kinds: all.clone(), max_frames: frames, max_scenes: 3, max_objects: 4, twins: true, lifecycle: true, batches: true, rotation: false, constraints: 0, features: true, stress: false, long_life: 0, lookalikes: false, wide: false },
-        "C13" => WorldOpts { kinds: all.clone(), max_frames: frames, max_scenes: 2, max_objects: 3, twins: false, lifecycle: true, batches: true, rotation: false, constraints: 0, features: true, stress: false, long_life: if thorough { 300 } else { 60 }, lookalikes: false, wide: false },
-        "C12" => WorldOpts { kinds: vec![Kind::VisualSort, Kind::BatchVisualSort], max_frames: frames, max_scenes: 2, max_objects: 4, twins: false, lifecycle: false, batches: true, rotation: false, constraints: 0, features: true, stress: true, long_life: 0, lookalikes: true, wide: false },
-        "C02" => WorldOpts { kinds: sort_family, max_frames: frames, max_scenes: 2, max_objects: 5, twins: false, lifecycle: false, batches: true, rotation: true, constraints: 0, features: false, stress: true, long_life: 0, lookalikes: false, wide: false },
-        "C20" => WorldOpts { kinds: sort_family, max_frames: frames, max_scenes: 2, max_objects: 4, twins: false, lifecycle: false, batches: true, rotation: false, constraints: 1, features: false, stress: true, long_life: 0, lookalikes: false, wide: false },
-        "C04" => WorldOpts { kinds: all.clone(), max_frames: frames, max_scenes: 4, max_objects: 3, twins: false, lifecycle: true, batches: true, rotation: true, constraints: 1, features: true, stress: true, long_life: 0, lookalikes: false, wide: false },
-        "C05" => WorldOpts { kinds: all.clone(), max_frames: frames, max_scenes: 2, max_objects: 5, twins: false, lifecycle: true, batches: true, rotation: true, constraints: 1, features: true, stress: true, long_life: 0, lookalikes: false, wide: false },
-        _ => WorldOpts { kinds: vec![Kind::BatchSort, Kind::BatchSort, Kind::BatchVisualSort], max_frames: frames, max_scenes: 4, max_objects: 3, twins: false, lifecycle: true, batches: true, rotation: true, constraints: 1, features: true, stress: true, long_life: 0, lookalikes: false, wide: true },
+        "C01" => WorldOpts { kinds: all.clone(), max_frames: frames, max_scenes: 3, max_objects: 5, twins: true, lifecycle: true, batches: true, rotation: true, constraints: 1, features: true, stress: true, long_life: 0, lookalikes: true, wide: false, own_area: false, fast: false },
+        "C03" => WorldOpts { kinds: all.clone(), max_frames: frames, max_scenes: 3, max_objects: 4, twins: true, lifecycle: true, batches: true, rotation: false, constraints: 0, features: true, stress: false, long_life: 0, lookalikes: false, wide: false, own_area: false, fast: false },
+        "C13" => WorldOpts { kinds: all.clone(), max_frames: frames, max_scenes: 2, max_objects: 3, twins: false, lifecycle: true, batches: true, rotation: false, constraints: 0, features: true, stress: false, long_life: if thorough { 300 } else { 60 }, lookalikes: false, wide: false, own_area: true, fast: false },
+        "C12" => WorldOpts { kinds: vec![Kind::VisualSort, Kind::BatchVisualSort], max_frames: frames, max_scenes: 2, max_objects: 4, twins: false, lifecycle: false, batches: true, rotation: false, constraints: 0, features: true, stress: true, long_life: 0, lookalikes: true, wide: false, own_area: true, fast: false },
+        "C02" => WorldOpts { kinds: sort_family, max_frames: frames, max_scenes: 2, max_objects: 5, twins: false, lifecycle: false, batches: true, rotation: true, constraints: 0, features: false, stress: true, long_life: 0, lookalikes: false, wide: false, own_area: false, fast: true },
+        "C20" => WorldOpts { kinds: all.clone(), max_frames: frames, max_scenes: 2, max_objects: 4, twins: false, lifecycle: false, batches: true, rotation: false, constraints: 1, features: true, stress: true, long_life: 0, lookalikes: false, wide: false, own_area: false, fast: true },
+        "C04" => WorldOpts { kinds: all.clone(), max_frames: frames, max_scenes: 4, max_objects: 3, twins: false, lifecycle: true, batches: true, rotation: true, constraints: 1, features: true, stress: true, long_life: 0, lookalikes: false, wide: false, own_area: true, fast: false },
+        "C05" => WorldOpts { kinds: all.clone(), max_frames: frames, max_scenes: 2, max_objects: 5, twins: false, lifecycle: true, batches: true, rotation: true, constraints: 1, features: true, stress: true, long_life: 0, lookalikes: false, wide: false, own_area: false, fast: false },
+        _ => WorldOpts { kinds: vec![Kind::BatchSort, Kind::BatchSort, Kind::BatchVisualSort], max_frames: frames, max_scenes: 4, max_objects: 3, twins: false, lifecycle: true, batches: true, rotation: true, constraints: 1, features: true, stress: true, long_life: 0, lookalikes: false, wide: true, own_area: true, fast: false },
     }
 }
 
@@ -390,6 +391,7 @@ impl TrackerEngine {
             // which the compared runs are allowed to time differently
             "C04" | "C06" => strip_ops(&mut c, true, true),
             "C05" | "C20" | "C02" => strip_ops(&mut c, false, false),
+            "C12" => strip_ops(&mut c, false, false),
             _ => {}
         }
         if self.prop == "C06" && r.chance(1, 8) {
